@@ -319,7 +319,8 @@ def rl2(ctx, R):
     if len(ctor_nodes) != 1:
         raise AnchorMissing("tdms.TdmsFile.__init__: exactly one `x = TdmsReader(...)` assignment (found %d)" % len(ctor_nodes))
     A = ctor_nodes[0]
-    target = dotted(A.ast.targets[0])
+    targets_ = [dotted(t) for t in A.ast.targets if dotted(t)]       # reader = self._reader = TdmsReader(file): either name is the reader
+    target = targets_[0]
 
     def cm_closes(node, val):
         """`with K(.., target, .., keep_open ..)` of a package context manager whose __exit__ always closes the field holding
@@ -344,7 +345,7 @@ def rl2(ctx, R):
                 elif isinstance(a, ast.Constant) and isinstance(a.value, bool):
                     facts[p_] = a.value
             closed = gen_cm_closed_params(ctx, g, facts, "exit")
-            hit = any(dotted(a) == target and p_ in closed for p_, a in b.items())
+            hit = any(dotted(a) in targets_ and p_ in closed for p_, a in b.items())
             if not hit:
                 return False
             if node.kind == "with_exit":
@@ -364,7 +365,7 @@ def rl2(ctx, R):
             for pos, (fld, pn) in cf.items():
                 if k.arg == pn:
                     bound[fld] = k.value
-        tf = [f for f, a in bound.items() if dotted(a) == target]
+        tf = [f for f, a in bound.items() if dotted(a) in targets_]
         if not tf:
             return False
         facts = {}
@@ -387,7 +388,7 @@ def rl2(ctx, R):
     _val = [None]
 
     def closes(node):
-        return _node_has_call(node, lambda c: call_name(c) == target + ".close") or cm_closes(node, _val[0])
+        return _node_has_call(node, lambda c: call_name(c) in [t + ".close" for t in targets_]) or cm_closes(node, _val[0])
     defaults = init.defaults
     if "keep_open" not in init.params:
         raise AnchorMissing("tdms.TdmsFile.__init__ parameter keep_open")
